@@ -5,6 +5,8 @@ from harness import simdrv as S
 from harness import simprops as SP
 
 ID = 'C16'
+BRIDGE_IMPORTS = 'From Eudoxia Require Import Model.SchedSrc.\n'
+BRIDGE = [('sched_priority_pool', 'ext_sched_priority_pool = sched_priority_pool_src', 'reflexivity.')]
 MASK = S.M_DEC | S.M_RES | S.M_POOLS
 ASSUMPTIONS = ['two pools, multi-operator containers (the configuration the scheduler supports; see known finding F10)']
 
